@@ -43,7 +43,7 @@ N, P = R.N, R.P
 
 
 def runs(tier, seed):
-    m = 1 if tier == "quick" else 40
+    m = 1 if tier == "quick" else 12  # thorough scaled to ~15 min on 16 idle cores (pure-Python EC arithmetic is the bottleneck)
     return [
         Run("c50_key", cases=6000 * m, timeout=3000),
         Run("c50_pubkey", cases=12000 * m, timeout=3000),
